@@ -23,7 +23,7 @@ def main():
         a = subprocess.run(["git", "-C", "/repo", "apply", "--3way", patch], capture_output=True, text=True)
         if a.returncode != 0:
             print("patch does not apply:", a.stderr[-500:])
-            subprocess.run(["git", "-C", "/repo", "checkout", "--", "."])
+            subprocess.run(["git", "-C", "/repo", "reset", "-q", "--hard", "HEAD"])
             return 2
     results = {}
     try:
@@ -43,8 +43,7 @@ def main():
                           "tool_error": (p.stderr.strip().split("\n")[-1][:200] if p.returncode == 2 else "")}
             print(c, results[c], flush=True)
     finally:
-        subprocess.run(["git", "-C", "/repo", "checkout", "--", "."])
-        subprocess.run(["git", "-C", "/repo", "reset", "-q"])
+        subprocess.run(["git", "-C", "/repo", "reset", "-q", "--hard", "HEAD"])
     print(json.dumps(results))
     return 0
 
